@@ -48,6 +48,7 @@ def check(ctx: Ctx):
         except (Undecided, AnchorMissing) as e:
             ctx.undecided(rule, None, None, f"{rule}:{fn.__name__}", f"{type(e).__name__}: {e}")
     c03.check_no_pruning(ctx)
+    c03._guarded(ctx, "R03.7", c03.check_candidate_call)
     c03._guarded(ctx, "R03.1", c03.check_codec)
     c03._guarded(ctx, "R03.2", c03.check_candidates)
     c03._guarded(ctx, "R03.4", c03.check_naive)
